@@ -76,7 +76,31 @@ func (c *Call) ctx(i int) *CtxV {
 	return v
 }
 
+// u64Of decodes stored bytes holding one big-endian uint64.
+func (ex *Exec) u64Of(b *BytesV) *smt.Term {
+	if b == nil || b.Nil {
+		return smt.IntC(0)
+	}
+	if b.Tag == "u64be" && len(b.Args) == 1 {
+		return b.Args[0]
+	}
+	if len(b.Args) == 1 && b.Args[0].Sort == smt.Int && strings.Contains(strings.ToLower(b.Tag), "uint64") {
+		return b.Args[0]
+	}
+	if b.Row != nil {
+		l := smt.App(b.Row.Base+"!u64", smt.Int, b.Row.Key...)
+		ex.assume(smt.Ge(l, smt.IntC(0)))
+		return l
+	}
+	l := smt.App("be2u64!"+b.Tag, smt.Int, b.Args...)
+	ex.assume(smt.Ge(l, smt.IntC(0)))
+	return l
+}
+
 func (ex *Exec) unmarshalTo(b *BytesV, t types.Type) Val {
+	if bt, ok := t.Underlying().(*types.Basic); ok && bt.Info()&types.IsInteger != 0 {
+		return ex.u64Of(b)
+	}
 	if b == nil || b.Nil {
 		return ex.zero(t)
 	}
@@ -489,6 +513,9 @@ func init() {
 		if b.Tag == "u64be" && len(b.Args) == 1 {
 			return b.Args[0]
 		}
+		if len(b.Args) == 1 && b.Args[0].Sort == smt.Int && strings.Contains(strings.ToLower(b.Tag), "uint64") {
+			return b.Args[0]
+		}
 		if b.Row != nil {
 			l := smt.App(b.Row.Base+"!u64", smt.Int, b.Row.Key...)
 			c.Ex.assume(smt.Ge(l, smt.IntC(0)))
@@ -515,6 +542,10 @@ func init() {
 	reg(func(c *Call) Val {
 		b := c.Args[1].(*BytesV)
 		if b.Tag == "u64be" && len(b.Args) == 1 {
+			return b.Args[0]
+		}
+		// an abstracted encoder of one uint64 (types.GetUint64Bytes and the like)
+		if len(b.Args) == 1 && b.Args[0].Sort == smt.Int && strings.Contains(strings.ToLower(b.Tag), "uint64") {
 			return b.Args[0]
 		}
 		if b.Row != nil {
